@@ -171,7 +171,7 @@ impl<T: TrustProvider> TrustAwarePeerSelector<T> {
         }
 
         // Score each candidate, filtering NaN during collection for efficiency
-        let mut scored: Vec<(NodeInfo, f64)> = candidates
+        let mut scored: Vec<(NodeInfo, f64, [u8; 32], f64)> = candidates
             .iter()
             .filter_map(|node| {
                 let trust = self.get_trust_for_node(&node.id);
@@ -186,18 +186,24 @@ impl<T: TrustProvider> TrustAwarePeerSelector<T> {
                 if score.is_nan() {
                     return None;
                 }
-                Some((node.clone(), score))
+                Some((node.clone(), score, full_xor_distance(key, &node.id), trust))
             })
             .collect();
 
-        // Sort by score descending (higher is better)
-        scored.sort_by(|a, b| b.1.total_cmp(&a.1));
+        // Sort by score descending (higher is better). The score only sees the top 16 bytes
+        // of the distance (and `1 + d / 1e30` absorbs small ones), so equal scores are common:
+        // they are ordered by the full 32-byte XOR distance, closest first, then by trust.
+        scored.sort_by(|a, b| {
+            b.1.total_cmp(&a.1)
+                .then_with(|| a.2.cmp(&b.2))
+                .then_with(|| b.3.total_cmp(&a.3))
+        });
 
         // Take top `count` peers
         scored
             .into_iter()
             .take(count)
-            .map(|(node, _)| node)
+            .map(|(node, ..)| node)
             .collect()
     }
 
@@ -262,6 +268,20 @@ fn xor_distance(key: &DhtKey, node_id: &NodeId) -> u128 {
     let mut distance: u128 = 0;
     for i in 0..16 {
         distance = (distance << 8) | ((key_bytes[i] ^ node_bytes[i]) as u128);
+    }
+    distance
+}
+
+/// Full 32-byte XOR distance between a key and a node ID (big-endian, so the array
+/// order is the numeric order). Used to break ties of the score, which only sees
+/// the first 16 bytes.
+fn full_xor_distance(key: &DhtKey, node_id: &NodeId) -> [u8; 32] {
+    let key_bytes = key.as_bytes();
+    let node_bytes = node_id.as_bytes();
+
+    let mut distance = [0u8; 32];
+    for (i, out) in distance.iter_mut().enumerate() {
+        *out = key_bytes[i] ^ node_bytes[i];
     }
     distance
 }
